@@ -268,15 +268,22 @@ def atomic_idiom(res: Result, target_param: str) -> Tuple[bool, str, dict]:
         return False, "temporary file name has no per-call unique token " \
                       "(two processes share one temp file)", facts
     # all write sinks go to the temp, none to the target
+    def is_temp(p: T) -> bool:
+        # the temporary file (or a wrapper / part of its expression that
+        # still carries the per-call unique token) — the target itself is a
+        # sub-term of the temp expression, too, and is *not* the temp
+        return p is tmp or p.contains(tmp) or (
+            tmp.contains(p) and any(is_call_to(x, *UNIQUE_SOURCES)
+                                    for x in p.walk()))
     for (e, p, kind) in sinks:
-        if p is tmp or p.contains(tmp) or tmp.contains(p):
+        if is_temp(p):
             continue
         if derived_from_target(p) and e is not e_rep:
             return False, f"{kind} writes the target itself at {e.where}", \
                 facts
     opens = [e for (e, p, kind) in sinks
-             if (p is tmp or tmp.contains(p) or p.contains(tmp))
-             and e is not e_rep and not kind.startswith("os.")]
+             if is_temp(p) and e is not e_rep and
+             not kind.startswith("os.")]
     if not opens:
         # mkstemp + fdopen form
         opens = [e for e in res.of_kind("call")
@@ -459,6 +466,43 @@ def check(ctx):
     upd = prog.func(f"{SETTINGS_MOD}.update_if_outdated")
     ctx.analysed_fn(upd.qualname)
     r = results[upd.qualname]
+
+    # "sees every default key": the upgrade is skipped only when the stored
+    # version *is* the running one. An ordering of versions (string parts
+    # compare lexicographically: "1.10" < "1.9") or any other relation skips
+    # upgrades that are due
+    merges = [e for e in r.of_kind("call") if (e.data.get("name") or "")
+              .endswith("merge_dicts")]
+    early = [e for e in r.of_kind("return")
+             if merges and e.idx < merges[0].idx]
+    for e in early:
+        ats = [a for a in tm.atoms(e.live) if a.op == "cmp"]
+        vers = [a for a in ats if any(
+            (x.op == "global" and x.args[0].endswith("__version__")) or
+            (tm.is_const(x) and isinstance(x.args[1], str) and
+             x.args[1].startswith("v") and x.args[1][1:2].isdigit())
+            for x in a.walk())]
+        same = [a for a in vers if a.args[0] in ("Eq", "NotEq") and
+                any(is_call_to(x, ".read", ".read_text")
+                    for x in a.walk()) and not any(
+                    x.op == "call" and (tm.callee_name(x) or "").startswith(
+                        "evo.") for x in a.walk())]
+        other = [a for a in vers if a not in same]
+        if other:
+            ctx.ob("C19.3", e, False,
+                   f"update_if_outdated skips the upgrade when "
+                   f"{fmt(other[0])[:100]} — not only when the stored "
+                   f"version equals the running one: an upgrade that is due "
+                   f"is skipped and the loaded settings lack the newer "
+                   f"default keys", key="C19.3:skip-only-when-same")
+        elif same:
+            ctx.ob("C19.3", e, True,
+                   "update_if_outdated returns early only when the stored "
+                   "version equals the running one",
+                   key="C19.3:skip-only-when-same")
+        else:
+            ctx.undecidable("C19.3", e, f"update_if_outdated: early return "
+                            f"under {fmt(e.live)[:100]} (unknown idiom)")
 
     WP = writer_params(prog, results)
 
